@@ -1,7 +1,7 @@
 (* C01 entry points: the batch-processor acceptor (Batch/Model.v) + the C01 history checkers. *)
 From V Require Export Batch.Spec.
-Definition run_model := Batch.Glue.run_model.
-Definition run_tag := Batch.Glue.run_tag.
+Definition run_model := batch_run_model.
+Definition run_tag := batch_run_tag.
 Definition run_spec (l obs : list tok) : list tok :=
   match parse_case l with
   | None => bad_case
